@@ -117,6 +117,27 @@ CHECKS["C25"] = dict(cat="translation_validation", ref="4 C25 / 11.9", engine="p
    note=VSA_NOTE + " C25 specific: annotation hashing is nominal in this harness (claripy.annotation.hash replaced by a digest of the fields' terms). Known "
         "findings: C25-addsub-ordered-wrap (whole obligations with a sum/difference under an ordered comparison are attributed to it), "
         "C25-inherits-vsa-extract-shl (annotated variables under extract/shift inherit C21's unsound transfer functions).")
+CHECKS["C24"] = dict(cat="translation_validation", ref="4 C24 / 11.10", engine="pysym",
+   text="Expressions of the C01 shape pool plus 60 If / And / Or / Not shapes whose conditions depend on the variables are built over variables annotated "
+        "with strided intervals (three concrete annotation sets; fully symbolic annotations in thorough) and symbolic constants; backends.vsa.convert "
+        "(ITE excavation, If joins, BoolResult combination, annotation application, interval transfer functions) runs on the shadows. Per explored path Z3 "
+        "decides, for all constants and all members of the variables' intervals, that the SMT-LIB value of the written tree is in the abstract value "
+        "(Boolean: the truth value is among the answers), and that SolverVSA.eval/min/max (signed and unsigned)/satisfiable/is_true/is_false exclude "
+        "nothing. Width 3 quick; 2,3,4,6 thorough.",
+   technique="symbolic execution of the real Python code on int shadows; Z3 containment query per path over all constants and interval members",
+   note=VSA_NOTE + " C24 specific: a failure is attributed to a C21/C22 finding only if a StridedInterval call recorded on the failing path had operands "
+        "that are a known-failing tuple under the counterexample. Division by zero exempt. Multiplication/division shapes and shifts by an interval "
+        "amount are thorough-tier only.")
+CHECKS["C23"] = dict(cat="other", ref="4 C23 / 11.11", engine="pysym",
+   text="DiscreteStridedIntervalSet (2 members: one with symbolic stride/bounds, one from a concrete pool) and ValueSet (1-2 regions from a pool of 3 names: "
+        "one symbolic interval, one concrete) at width 2 (quick) / 2-3 (thorough): every operator of both classes (arithmetic, bitwise, shifts, reversed "
+        "operators, concat, extract, extensions, comparisons, union / intersection / widen, identical) and the queries (eval, min, max, cardinality, "
+        "collapse). Per explored path Z3 decides per-member / per-region containment of every concrete result and agreement of the queries with the "
+        "member set, for all interval parameters and members.",
+   technique="symbolic execution of the real Python code on int shadows; Z3 containment / exactness query per path",
+   note=VSA_NOTE + " C23 specific: operand pairs in C21/C22's exact tables of known-failing interval operands are excluded by assumption (the set / region "
+        "lifting is the subject); remaining failures are attributed to C21/C22 only if a recorded interval-level call on the failing path had known-failing "
+        "operands. Only one operand carries a symbolic member per exploration.")
 NOT_YET = {}
 NA = {
  "C20": "Real OS-thread preemption inside CPython and libz3 cannot be encoded by any engine available here; a stress run would be sampling, i.e. a different technique (DESIGN.md section 5).",
